@@ -109,8 +109,7 @@ impl Case {
             },
             partitioner: match v["partitioner"].as_str() {
                 None => None,
-                Some(s) if s.ends_with("CDCPartitioner") => Some(CDC),
-                Some(_) => Some(MURMUR),
+                Some(s) => Some(SPELLINGS.iter().flatten().copied().find(|x| *x == s)?),
             },
             global_spec: v["global_spec"].as_bool().unwrap_or(true),
             explicit: v["explicit_hex"].as_array().map(|a| a.iter().map(|x| vcore::unhex(x.as_str().unwrap_or(""))).collect()).unwrap_or_default(),
@@ -120,6 +119,12 @@ impl Case {
 
 const MURMUR: &str = "org.apache.cassandra.dht.Murmur3Partitioner";
 const CDC: &str = "com.scylladb.dht.CDCPartitioner";
+/// `system_schema.scylla_tables.partitioner` values: absent, the two class names the servers send, their
+/// bare forms, and names the driver does not know (it then falls back to the default partitioner, Murmur3).
+const SPELLINGS: [Option<&str>; 8] = [None, Some(MURMUR), Some(CDC), Some("Murmur3Partitioner"), Some("CDCPartitioner"), Some("org.apache.cassandra.dht.RandomPartitioner"), Some("org.apache.cassandra.dht.ByteOrderedPartitioner"), Some("")];
+fn spelling_is_cdc(p: Option<&str>) -> bool {
+    p.is_some_and(|s| s.ends_with("CDCPartitioner"))
+}
 
 struct Worlds {
     /// (partitioner string, number of pk columns) -> cluster state with that table
@@ -128,7 +133,7 @@ struct Worlds {
 impl Worlds {
     fn new(max_k: usize) -> Worlds {
         let mut states = Vec::new();
-        for p in [None, Some(MURMUR), Some(CDC)] {
+        for p in SPELLINGS {
             for k in 0..=max_k {
                 let types: Vec<ColumnType<'static>> = (0..k).map(|_| ColumnType::Native(NativeType::Blob)).collect();
                 states.push((p, k, hook::cluster_state_with_table(KS, TABLE, &types, p)));
@@ -173,10 +178,51 @@ fn check(r: &Report, w: &Worlds, c: &Case, verbose: bool) {
     }
     let comp_refs: Vec<&[u8]> = comps.iter().map(|v| v.as_slice()).collect();
     let want_key = cqlref::murmur3::partition_key_bytes(&comp_refs);
-    let is_cdc = c.partitioner == Some(CDC);
+    // deciding spellings: absent and the two class names the servers send. For bare or unknown names the
+    // property prescribes nothing (no server sends them / the driver cannot compute such a partitioner's token):
+    // there the statement must only be consistent with the partitioner it reports itself.
+    let deciding = matches!(c.partitioner, None | Some(MURMUR) | Some(CDC));
+    let is_cdc = if deciding { spelling_is_cdc(c.partitioner) } else { matches!(ps.get_partitioner_name(), scylla::routing::partitioner::PartitionerName::CDC) };
     let want_token = want_key.as_ref().map(|kb| if is_cdc { cqlref::murmur3::cdc_token(kb) } else { cqlref::murmur3::murmur3_token(kb) });
     if verbose {
         println!("case {c:?}\n  reference key bytes ({}): {}\n  reference token: {want_token:?}", want_key.as_ref().map(|k| k.len()).unwrap_or(0), want_key.as_ref().map(|k| vcore::hex(&k[..k.len().min(64)])).unwrap_or_else(|| "refused (component > 65535 bytes)".into()));
+    }
+    // what the statement says about itself
+    {
+        use scylla::routing::partitioner::PartitionerName;
+        let got_cdc = matches!(ps.get_partitioner_name(), PartitionerName::CDC);
+        if deciding && got_cdc != is_cdc {
+            r.violation("keys:partitioner-name", &format!("table partitioner string {:?}: statement uses {:?}", c.partitioner, ps.get_partitioner_name()), c.to_json());
+        }
+        if ps.is_token_aware() != (k > 0) {
+            r.violation("keys:is-token-aware", &format!("is_token_aware() = {} with {k} partition-key markers: {c:?}", ps.is_token_aware()), c.to_json());
+        }
+        let mut want_idx: Vec<(u16, u16)> = c.pk_marker.iter().enumerate().map(|(j, p)| (*p as u16, j as u16)).collect();
+        want_idx.sort_unstable();
+        let got_idx: Vec<(u16, u16)> = ps.get_variable_pk_indexes().iter().map(|p| (p.index, p.sequence)).collect();
+        if got_idx != want_idx {
+            r.violation("keys:pk-indexes", &format!("get_variable_pk_indexes() = {got_idx:?} (marker, key position), the response said {want_idx:?}: {c:?}"), c.to_json());
+        }
+    }
+    // the same values bound BY NAME (a map is serialized into marker order by the driver)
+    if c.m <= 16 {
+        let named: std::collections::BTreeMap<String, MaybeUnset<Option<Vec<u8>>>> = values.iter().enumerate().map(|(i, v)| (format!("c{i}"), v.clone())).collect();
+        let got_key = catch(std::panic::AssertUnwindSafe(|| ps.compute_partition_key(&named).map(|b| b.to_vec())));
+        let got_tok = catch(std::panic::AssertUnwindSafe(|| ps.calculate_token(&named).map(|o| o.map(|t| t.value()))));
+        let key_ok = match (&got_key, &want_key) {
+            (Ok(Ok(g)), Some(wk)) => g == wk,
+            (Ok(Err(_)), None) => true,
+            _ => false,
+        };
+        let tok_ok = match (&got_tok, want_token) {
+            (Ok(Ok(None)), Some(_)) => k == 0,
+            (Ok(Ok(Some(g))), Some(wt)) => *g == wt && k > 0,
+            (Ok(Err(_)), None) => true,
+            _ => false,
+        };
+        if !key_ok || !tok_ok {
+            r.violation("keys:named-values", &format!("values bound by name for {c:?}: partition key {:?} / token {got_tok:?}; reference key {} bytes, token {want_token:?}", got_key.as_ref().map(|r| r.as_ref().map(|b| b.len())), want_key.as_ref().map(|k| k.len()).unwrap_or(0)), c.to_json());
+        }
     }
     // Every handle to the statement a user can hold must route identically: the statement as
     // prepared, a clone, a clone of a clone, a clone reconfigured through the setters, and the
@@ -268,14 +314,15 @@ fn main() {
     if let Some(case) = r.replay_case() {
         let Some(c) = Case::from_json(&case) else { vcore::machinery_error("replay: bad case") };
         let w = Worlds::new(c.pk_marker.len().max(1));
+        println!("(replay) partitioner string {:?}", c.partitioner);
         check(&r, &w, &c, true);
         r.finish_replay();
     }
     let thorough = r.tier().is_thorough();
     let (kmax, mmax) = r.tier().pick((4usize, 6usize), (6usize, 8usize));
-    let w = Worlds::new(8);
+    let w = Worlds::new(10);
     let jobs = r.args.jobs;
-    let small = [0usize, 1, 15, 16, 17];
+    let small = [0usize, 1, 15, 16, 17, 30, 33, 255, 257];
     let mut cases: Vec<Case> = Vec::new();
     // not token aware: no pk indexes
     cases.push(Case { m: 2, pk_marker: vec![], lens: vec![], nonkey: NonKey::Valued, partitioner: None, global_spec: true, explicit: vec![] });
@@ -345,6 +392,41 @@ fn main() {
             }
         }
     }
+    // every spelling of the table's partitioner string, single key at every marker position
+    for p in SPELLINGS {
+        for m in 1..=3usize {
+            for pos in 0..m {
+                for len in [0usize, 7, 8, 9, 16, 17] {
+                    cases.push(Case { m, pk_marker: vec![pos], lens: vec![len], nonkey: NonKey::Valued, partitioner: p, global_spec: true, explicit: vec![] });
+                }
+            }
+        }
+        // and a composite key under the Murmur3-like spellings
+        if matches!(p, None | Some(MURMUR)) {
+            cases.push(Case { m: 3, pk_marker: vec![2, 0], lens: vec![17, 1], nonkey: NonKey::Null, partitioner: p, global_spec: false, explicit: vec![] });
+        }
+    }
+    // wide keys: 8 components fill the on-stack SmallVec of PartitionKey, 9 and 10 spill; keys among many markers
+    for k in [8usize, 9, 10] {
+        let arrs: Vec<(usize, Vec<usize>)> = vec![(k, (0..k).collect()), (k, (0..k).rev().collect()), (16, (0..k).map(|j| 15 - j).collect()), (16, (0..k).map(|j| (j * 7) % 16).collect())];
+        for (m, arr) in arrs {
+            for rot in 0..3 {
+                let lens: Vec<usize> = (0..k).map(|j| small[(j + rot) % small.len()]).collect();
+                cases.push(Case { m, pk_marker: arr.clone(), lens, nonkey: NonKey::Long, partitioner: None, global_spec: rot != 1, explicit: vec![] });
+            }
+        }
+    }
+    for (m, arr) in [(300usize, vec![299usize, 0]), (300, vec![150]), (256, vec![255, 254, 0]), (257, vec![0, 256])] {
+        let lens = arr.iter().enumerate().map(|(j, _)| [33usize, 1, 16][j % 3]).collect();
+        cases.push(Case { m, pk_marker: arr, lens, nonkey: NonKey::Valued, partitioner: None, global_spec: true, explicit: vec![] });
+    }
+    // two maximal components side by side, and a maximal one between short ones
+    cases.push(Case { m: 2, pk_marker: vec![1, 0], lens: vec![65535, 65535], nonkey: NonKey::Valued, partitioner: None, global_spec: true, explicit: vec![] });
+    cases.push(Case { m: 4, pk_marker: vec![3, 1, 0], lens: vec![1, 65535, 0], nonkey: NonKey::Null, partitioner: None, global_spec: true, explicit: vec![] });
+    if thorough {
+        // the widest statement the protocol allows: 65535 bind markers, key at both ends
+        cases.push(Case { m: 65535, pk_marker: vec![65534, 0], lens: vec![17, 30], nonkey: NonKey::Valued, partitioner: None, global_spec: true, explicit: vec![] });
+    }
     // constructed preimages: single-column keys (16 bytes) and two-component composite keys (framed
     // stream of 32 bytes) whose RAW Murmur3 hash is exactly i64::MIN (-> token i64::MAX) / boundary values
     let mut raw_min_cases = 0u64;
@@ -395,7 +477,7 @@ fn main() {
     let r_ref = &r;
     let w_ref = &w;
     vcore::par::for_each(jobs, 8, cases.into_iter(), |c| check(r_ref, w_ref, &c, false));
-    r.set_rule(&format!("E-ENUM. Real PreparedStatements from RESULT/Prepared body bytes (production parser + constructor; partitioner from the table's partitioner string in a real ClusterState). k=1..{kmax} key components among m=k..{mmax} bind markers in EVERY injective arrangement (positions x order); component lengths: all tuples over {{0,1,15,16,17}} for k<=2{} and rotating assignments otherwise, plus 65535 / 65536 in every position; non-key markers valued / NULL / unset / long; global and per-column table specs; CDC tables with a single key at every marker position; constructed preimages (cqlref::murmur3::invert_block16 / composite_preimage): single-column 16-byte keys and two-component composite keys whose framed stream has RAW Murmur3 hash exactly i64::MIN (token must be i64::MAX), MIN+1, MAX, -1, 0. Every partition-key/token computation runs on 7 handles of each statement: as prepared, clone, clone of clone, clone reconfigured through setters (page size, consistency, idempotence, tracing, timestamp, timeout), its clone, the CachingSession path (unconfigured cached handle -> configured handle) and its clone. Oracles: compute_partition_key == len16|bytes|0 framing in KEY order (single column: raw bytes); calculate_token and ClusterState::compute_token == reference Murmur3/CDC token; 65536-byte component of a composite key refused. distinct_nontrivial = cases with a composite key whose marker order differs from key order or with interleaved non-key markers.", if thorough { " (k<=3 thorough)" } else { "" }));
+    r.set_rule(&format!("E-ENUM. Real PreparedStatements from RESULT/Prepared body bytes (production parser + constructor; partitioner from the table's partitioner string in a real ClusterState). k=1..{kmax} key components among m=k..{mmax} bind markers in EVERY injective arrangement (positions x order); component lengths: all tuples over {{0,1,15,16,17}} for k<=2{} and rotating assignments otherwise, plus 65535 / 65536 in every position; non-key markers valued / NULL / unset / long; global and per-column table specs; CDC tables with a single key at every marker position; 8 spellings of the table partitioner string (deciding: absent and the two class names servers send; bare / unknown / empty names only have to be consistent with the partitioner the statement reports) with get_partitioner_name / is_token_aware / get_variable_pk_indexes checked; the same values bound BY NAME (BTreeMap); 8/9/10-component keys (SmallVec spill) and keys among 256/257/300 (thorough 65535) markers; component lengths now also 30, 33, 255, 257 and two 65535-byte components side by side; constructed preimages (cqlref::murmur3::invert_block16 / composite_preimage): single-column 16-byte keys and two-component composite keys whose framed stream has RAW Murmur3 hash exactly i64::MIN (token must be i64::MAX), MIN+1, MAX, -1, 0. Every partition-key/token computation runs on 7 handles of each statement: as prepared, clone, clone of clone, clone reconfigured through setters (page size, consistency, idempotence, tracing, timestamp, timeout), its clone, the CachingSession path (unconfigured cached handle -> configured handle) and its clone. Oracles: compute_partition_key == len16|bytes|0 framing in KEY order (single column: raw bytes); calculate_token and ClusterState::compute_token == reference Murmur3/CDC token; 65536-byte component of a composite key refused. distinct_nontrivial = cases with a composite key whose marker order differs from key order or with interleaved non-key markers.", if thorough { " (k<=3 thorough)" } else { "" }));
     r.set_exhaustive(true);
     r.sample(json!({"markers":5,"pk_marker":[4,0,3],"meaning":"key component 0 bound by marker 4, component 1 by marker 0, component 2 by marker 3 (the repo's single shuffled unit test)"}));
     r.assume("PreparedStatement is obtained through hook H-PREPARED from response body bytes instead of Session::prepare against a mock node; the partitioner choice mirrors Session::extract_partitioner_name (6 lines) instead of calling it");
